@@ -122,7 +122,7 @@ def run(ck):
         dlines.append('dmat ' + ' '.join(gen.hexs(x) for x in [gen.rand_seq(rng, 'ACGT', la), gen.rand_seq(rng, 'ACGT', lb), gen.rand_seq(rng, 'AC', lb)]))
         ck.count('distance matrix: unrelated sequences (distance > 255)')
     # the length term MIN(10000, (l1+l2)/2)/10000: both sides of its cap (one duplicate pair and a short near-fragment each)
-    for (la, lb) in ([(19900, 30), (19990, 30), (22000, 40)] if quick else [(19900, 30), (19970, 30), (19990, 30), (22000, 40), (30000, 700), (10001, 10003)]):
+    for (la, lb) in ([(19900, 30), (19990, 30), (22000, 40)] if quick else [(19900, 30), (19970, 30), (19990, 30), (22000, 40), (21000, 700), (10001, 10003)]):
         D = gen.rand_seq(rng, 'ACGT', la)
         a0 = rng.below(la - min(lb, la) + 1)
         w = D[a0:a0 + lb] if lb < la else gen.rand_seq(rng, 'ACGT', lb)
@@ -130,7 +130,8 @@ def run(ck):
         dlines.append('dmat ' + ' '.join(gen.hexs(x) for x in [D, w]))
         ck.count('distance matrix: length-term cap family')
     di = ck.run_lines_sharded(kvh, dlines, shards=8, timeout=1800)
-    dm = ck.run_lines_sharded(ck.model(), dlines, shards=14, timeout=1800)
+    # the extracted model runs on Coq's binary integers: a 10000 x 10000 pair takes minutes, so these cases get a longer per-case limit
+    dm = ck.run_lines_sharded(ck.model(), dlines, shards=14, timeout=3000, case_timeout=1200)
     ck.evaluations += len(dlines)
     dst = ck.corr.setdefault('Pipeline.distance_matrix (bpm_block + length term, binary32) vs d_estimation at the 64/256/1024 boundaries', {'cases': 0, 'disagreements': 0})
     for ln, x, y in zip(dlines, di, dm):
